@@ -1,9 +1,1038 @@
-//! stub — not built yet
+//! C18 — "DHCPv4 client never uses an address beyond its lease" (E1 BFS, replay based).
+//!
+//! A real Ethernet `Interface` + `dhcpv4::Socket`; the explorer plays DHCP server, ARP
+//! responder, network (loss = not answering) and clock.  A state is the choice history;
+//! the fingerprint is the socket set's `{:?}` image + `Interface::verif_digest()` with all
+//! instants made relative to "now" + the reference model.
+//!
+//! Reference model (boring on purpose): which (xid, type) the client has put on the wire
+//! (own parser, offsets from RFC 951/2131/826), and a lease clock fed ONLY by ACKs that meet
+//! every acceptance condition of the statement.  The oracle is pure safety: it never demands
+//! that a good ACK is accepted, only that a bad one is not, and that a granted lease is not
+//! overstayed.  Lenient readings are marked `LENIENT:` below.
+
 use crate::core::*;
-pub fn run(_tier: Tier) -> i32 {
-    eprintln!("harness not built yet");
-    2
+use crate::sim::*;
+use serde_json::json;
+use smoltcp::iface::{Config, Interface, SocketHandle, SocketSet};
+use smoltcp::phy::Medium;
+use smoltcp::socket::dhcpv4;
+use smoltcp::time::{Duration, Instant};
+use smoltcp::wire::{
+    DhcpMessageType, DhcpOption, DhcpPacket, DhcpRepr, EthernetAddress, HardwareAddress, IpAddress, IpCidr,
+    Ipv4Address, Ipv4Cidr,
+};
+use std::collections::HashMap;
+use std::fmt::Write as _;
+use std::sync::atomic::{AtomicBool, Ordering};
+use std::sync::Mutex;
+
+const CLIENT_MAC: [u8; 6] = [2, 0, 0, 0, 0, 1];
+const SERVER_MAC: [u8; 6] = [2, 0, 0, 0, 0, 2];
+const FOREIGN_MAC: [u8; 6] = [2, 0, 0, 0, 0, 0x99];
+const SERVER_IP: [u8; 4] = [192, 168, 1, 1];
+const YI_UNI: [u8; 4] = [192, 168, 1, 42];
+const YI_MCAST: [u8; 4] = [224, 0, 0, 1];
+const BCAST: [u8; 4] = [255, 255, 255, 255];
+const MASK24: [u8; 4] = [255, 255, 255, 0];
+const MASK_NC: [u8; 4] = [255, 0, 255, 0];
+const DNS1: [u8; 4] = [1, 1, 1, 1];
+const US: i64 = 1_000_000;
+/// iterations of the "silent server until the lease is gone" macro event
+const RUN_CAP: usize = 400;
+
+// ---------------------------------------------------------------------------------------
+// configuration
+// ---------------------------------------------------------------------------------------
+
+#[derive(Clone, Debug, PartialEq)]
+pub struct Cfg {
+    pub retry_short: bool,
+    pub max_lease: Option<u32>,
+    pub ignore_naks: bool,
+    /// 0 = full alphabet (all single deviations + pairs), 1 = single deviations only
+    pub alpha: u8,
 }
-pub fn replay(_art: &serde_json::Value) -> i32 {
-    2
+
+fn parse_cfg(s: &str) -> Cfg {
+    let has = |k: &str| s.contains(k);
+    let max_lease = s.find("max_lease: Some(").map(|i| {
+        let r = &s[i + "max_lease: Some(".len()..];
+        r[..r.find(')').unwrap_or(0)].parse::<u32>().unwrap_or(30)
+    });
+    let alpha = s.find("alpha: ").and_then(|i| s[i + 7..].chars().next()).and_then(|c| c.to_digit(10)).unwrap_or(0) as u8;
+    Cfg { retry_short: has("retry_short: true"), max_lease, ignore_naks: has("ignore_naks: true"), alpha }
 }
+
+fn retry_config(short: bool) -> dhcpv4::RetryConfig {
+    let mut rc = dhcpv4::RetryConfig::default();
+    if short {
+        rc.discover_timeout = Duration::from_secs(2);
+        rc.initial_request_timeout = Duration::from_secs(1);
+        rc.request_retries = 2;
+        rc.min_renew_timeout = Duration::from_secs(5);
+        rc.max_renew_timeout = Duration::from_secs(50);
+    }
+    rc
+}
+
+/// Maximum back-off between two solicitations while unconfigured, derived from RetryConfig:
+/// DISCOVER is repeated every `discover_timeout`; the n-th REQUEST waits
+/// `initial_request_timeout << (n/2)`, n < request_retries.
+/// LENIENT: + 1 s (an interface may silence a socket for the neighbour-discovery silent time
+/// after a failed unicast) + 1 ms slack.
+fn max_backoff_us(rc: &dhcpv4::RetryConfig) -> i64 {
+    let d = rc.discover_timeout.total_micros() as i64;
+    let sh = (rc.request_retries.saturating_sub(1) as u32) / 2;
+    let r = (rc.initial_request_timeout.total_micros() as i64) << sh;
+    d.max(r) + US + 1000
+}
+
+// ---------------------------------------------------------------------------------------
+// server message alphabet
+// ---------------------------------------------------------------------------------------
+
+#[derive(Clone, Copy, PartialEq, Eq, Debug)]
+pub enum MT {
+    Offer,
+    Ack,
+    Nak,
+    Discover,
+    Inform,
+    Request,
+}
+#[derive(Clone, Copy, PartialEq, Eq, Debug)]
+pub enum X {
+    Latest,
+    Earlier,
+    Foreign,
+}
+#[derive(Clone, Copy, PartialEq, Eq, Debug)]
+pub enum M {
+    M24,
+    NonContig,
+    Absent,
+}
+#[derive(Clone, Copy, PartialEq, Eq, Debug)]
+pub enum Y {
+    Uni,
+    Bcast,
+    Zero,
+    Mcast,
+}
+#[derive(Clone, Copy, PartialEq, Eq, Debug)]
+pub enum T12 {
+    Absent,
+    Zero,
+    Equal,
+    Inverted,
+    Over,
+    T1Only,
+    T2Only,
+    Valid,
+    Tight,
+}
+
+#[derive(Clone, Copy, PartialEq, Eq)]
+pub struct MsgSpec {
+    typ: MT,
+    xid: X,
+    own_chaddr: bool,
+    sid: bool,
+    mask: M,
+    yi: Y,
+    lease: Option<u32>,
+    t12: T12,
+    extras: bool,
+    unicast: bool,
+}
+
+const BASE_LEASE: u32 = 600;
+fn base(typ: MT) -> MsgSpec {
+    MsgSpec {
+        typ,
+        xid: X::Latest,
+        own_chaddr: true,
+        sid: true,
+        mask: M::M24,
+        yi: Y::Uni,
+        lease: Some(BASE_LEASE),
+        t12: T12::Absent,
+        extras: true,
+        unicast: false,
+    }
+}
+
+impl std::fmt::Debug for MsgSpec {
+    fn fmt(&self, f: &mut std::fmt::Formatter) -> std::fmt::Result {
+        let b = base(self.typ);
+        write!(f, "{:?}{{", self.typ)?;
+        let mut parts: Vec<String> = vec![];
+        if self.xid != b.xid {
+            parts.push(format!("xid={:?}", self.xid));
+        }
+        if !self.own_chaddr {
+            parts.push("chaddr=foreign".into());
+        }
+        if !self.sid {
+            parts.push("server-id=absent".into());
+        }
+        if self.mask != b.mask {
+            parts.push(format!("mask={:?}", self.mask));
+        }
+        if self.yi != b.yi {
+            parts.push(format!("yiaddr={:?}", self.yi));
+        }
+        if self.lease != b.lease {
+            parts.push(match self.lease {
+                None => "lease=absent".into(),
+                Some(l) => format!("lease={}", l),
+            });
+        }
+        if self.t12 != b.t12 {
+            let (a, c) = t12_values(self.t12, self.lease);
+            parts.push(format!("T1/T2={:?}({:?},{:?})", self.t12, a, c));
+        }
+        if !self.extras {
+            parts.push("no-router/dns".into());
+        }
+        if self.unicast {
+            parts.push("unicast".into());
+        }
+        write!(f, "{}}}", parts.join(" "))
+    }
+}
+
+/// T1/T2 option values for a variant, relative to the lease L carried (120 = the documented
+/// default when the lease option is absent).
+fn t12_values(t: T12, lease: Option<u32>) -> (Option<u32>, Option<u32>) {
+    let l = lease.unwrap_or(120);
+    match t {
+        T12::Absent => (None, None),
+        T12::Zero => (Some(0), Some(0)),
+        T12::Equal => (Some(l / 2), Some(l / 2)),
+        T12::Inverted => (Some(l / 4 * 3), Some(l / 4)),
+        T12::Over => (Some(l.saturating_add(1)), Some(l.saturating_add(2))),
+        T12::T1Only => (Some(l / 2), None),
+        T12::T2Only => (None, Some(l / 4)),
+        T12::Valid => (Some(l / 4), Some(l / 2)),
+        T12::Tight => (Some(l.saturating_sub(2)), Some(l.saturating_sub(1))),
+    }
+}
+
+const LEASES: [Option<u32>; 7] = [None, Some(0), Some(1), Some(2), Some(60), Some(600), Some(u32::MAX)];
+const T12S: [T12; 9] =
+    [T12::Absent, T12::Zero, T12::Equal, T12::Inverted, T12::Over, T12::T1Only, T12::T2Only, T12::Valid, T12::Tight];
+
+fn alphabet(alpha: u8, earlier: bool) -> Vec<MsgSpec> {
+    let mut v = vec![];
+    let xids: &[X] = if earlier { &[X::Earlier, X::Foreign] } else { &[X::Foreign] };
+    // OFFER: base + single deviations in the dimensions an OFFER has
+    let o = base(MT::Offer);
+    v.push(o);
+    for &x in xids {
+        v.push(MsgSpec { xid: x, ..o });
+    }
+    v.push(MsgSpec { own_chaddr: false, ..o });
+    v.push(MsgSpec { sid: false, ..o });
+    v.push(MsgSpec { mask: M::NonContig, ..o });
+    v.push(MsgSpec { mask: M::Absent, ..o });
+    for y in [Y::Bcast, Y::Zero, Y::Mcast] {
+        v.push(MsgSpec { yi: y, ..o });
+    }
+    v.push(MsgSpec { lease: None, ..o });
+    v.push(MsgSpec { unicast: true, ..o });
+    // ACK: base + all single deviations
+    let a = base(MT::Ack);
+    v.push(a);
+    for &x in xids {
+        v.push(MsgSpec { xid: x, ..a });
+    }
+    v.push(MsgSpec { own_chaddr: false, ..a });
+    v.push(MsgSpec { sid: false, ..a });
+    v.push(MsgSpec { mask: M::NonContig, ..a });
+    v.push(MsgSpec { mask: M::Absent, ..a });
+    for y in [Y::Bcast, Y::Zero, Y::Mcast] {
+        v.push(MsgSpec { yi: y, ..a });
+    }
+    for l in LEASES {
+        if l != a.lease {
+            v.push(MsgSpec { lease: l, ..a });
+        }
+    }
+    for t in T12S {
+        if t != a.t12 {
+            v.push(MsgSpec { t12: t, ..a });
+        }
+    }
+    v.push(MsgSpec { extras: false, ..a });
+    v.push(MsgSpec { unicast: true, ..a });
+    if alpha == 0 {
+        // pairs over a reduced set: lease x T1/T2 (the two dimensions that interact in
+        // parse_ack), unicast delivery x tiny leases
+        for l in LEASES {
+            if l == a.lease {
+                continue;
+            }
+            for t in T12S {
+                if t == a.t12 {
+                    continue;
+                }
+                v.push(MsgSpec { lease: l, t12: t, ..a });
+            }
+        }
+        v.push(MsgSpec { unicast: true, lease: Some(0), ..a });
+        v.push(MsgSpec { unicast: true, lease: Some(1), ..a });
+    }
+    // NAK
+    let n = MsgSpec { yi: Y::Zero, mask: M::Absent, lease: None, extras: false, ..base(MT::Nak) };
+    v.push(n);
+    for &x in xids {
+        v.push(MsgSpec { xid: x, ..n });
+    }
+    v.push(MsgSpec { own_chaddr: false, ..n });
+    v.push(MsgSpec { sid: false, ..n });
+    v.push(MsgSpec { unicast: true, ..n });
+    // unrelated types, otherwise perfect
+    for t in [MT::Discover, MT::Inform, MT::Request] {
+        v.push(base(t));
+    }
+    v
+}
+
+fn bursts() -> Vec<Vec<MsgSpec>> {
+    let a = base(MT::Ack);
+    let n = MsgSpec { yi: Y::Zero, mask: M::Absent, lease: None, extras: false, ..base(MT::Nak) };
+    vec![
+        vec![base(MT::Offer), a],
+        vec![a, n],
+        vec![n, a],
+        vec![a, MsgSpec { lease: Some(1), ..a }],
+    ]
+}
+
+#[derive(Clone, PartialEq)]
+pub enum Ev {
+    /// one server frame, then `Interface::poll`
+    Msg(MsgSpec),
+    /// several server frames queued back to back, then ONE `Interface::poll`
+    Burst(Vec<MsgSpec>),
+    /// answer the client's outstanding ARP request for the server address, then poll
+    ArpReply,
+    /// advance the clock to `Interface::poll_at` (or poll again now if that is not in the future)
+    ToPollAt,
+    Plus1s,
+    /// advance to (expiry of the lease granted by the most recent acceptable ACK) + n us
+    ToExpiry(i64),
+    /// same for the expiry after capping with max_lease_duration (only when that differs)
+    ToCappedExpiry(i64),
+    /// silent DHCP server: follow poll_at until the client gives the address up
+    /// (bool: ARP requests for the server are answered)
+    RunSilent(bool),
+}
+impl std::fmt::Debug for Ev {
+    fn fmt(&self, f: &mut std::fmt::Formatter) -> std::fmt::Result {
+        match self {
+            Ev::Msg(m) => write!(f, "deliver {:?}", m),
+            Ev::Burst(v) => write!(f, "deliver-burst {:?}", v),
+            Ev::ArpReply => write!(f, "arp-reply"),
+            Ev::ToPollAt => write!(f, "advance-to-poll_at"),
+            Ev::Plus1s => write!(f, "advance+1s"),
+            Ev::ToExpiry(d) => write!(f, "advance-to-expiry{:+}us", d),
+            Ev::ToCappedExpiry(d) => write!(f, "advance-to-capped-expiry{:+}us", d),
+            Ev::RunSilent(arp) => write!(f, "run-silent-server(arp-answered={})", arp),
+        }
+    }
+}
+
+// ---------------------------------------------------------------------------------------
+// independent parser for what the client puts on the wire
+// ---------------------------------------------------------------------------------------
+
+#[derive(Clone, Debug)]
+struct ClientMsg {
+    typ: u8,
+    xid: u32,
+    ciaddr: [u8; 4],
+    ip_src: [u8; 4],
+    ip_dst: [u8; 4],
+    eth_dst: [u8; 6],
+}
+enum Tx {
+    ArpRequest { spa: [u8; 4], tpa: [u8; 4] },
+    Dhcp(ClientMsg),
+    Other,
+}
+fn a4(b: &[u8]) -> [u8; 4] {
+    [b[0], b[1], b[2], b[3]]
+}
+fn parse_tx(f: &[u8]) -> Tx {
+    if f.len() < 14 {
+        return Tx::Other;
+    }
+    let et = u16::from_be_bytes([f[12], f[13]]);
+    let p = &f[14..];
+    if et == 0x0806 {
+        if p.len() >= 28 && u16::from_be_bytes([p[6], p[7]]) == 1 {
+            return Tx::ArpRequest { spa: a4(&p[14..18]), tpa: a4(&p[24..28]) };
+        }
+        return Tx::Other;
+    }
+    if et != 0x0800 || p.len() < 20 || p[0] >> 4 != 4 || p[9] != 17 {
+        return Tx::Other;
+    }
+    let ihl = ((p[0] & 0xf) as usize) * 4;
+    if p.len() < ihl + 8 {
+        return Tx::Other;
+    }
+    let u = &p[ihl..];
+    let (sp, dp) = (u16::from_be_bytes([u[0], u[1]]), u16::from_be_bytes([u[2], u[3]]));
+    if sp != 68 || dp != 67 {
+        return Tx::Other;
+    }
+    let d = &u[8..];
+    if d.len() < 240 || d[236..240] != [0x63, 0x82, 0x53, 0x63] {
+        return Tx::Other;
+    }
+    let mut typ = 0u8;
+    let mut i = 240;
+    while i < d.len() {
+        let c = d[i];
+        if c == 255 {
+            break;
+        }
+        if c == 0 {
+            i += 1;
+            continue;
+        }
+        if i + 1 >= d.len() {
+            break;
+        }
+        let l = d[i + 1] as usize;
+        if i + 2 + l > d.len() {
+            break;
+        }
+        if c == 53 && l == 1 {
+            typ = d[i + 2];
+        }
+        i += 2 + l;
+    }
+    let mut eth_dst = [0u8; 6];
+    eth_dst.copy_from_slice(&f[0..6]);
+    Tx::Dhcp(ClientMsg {
+        typ,
+        xid: u32::from_be_bytes([d[4], d[5], d[6], d[7]]),
+        ciaddr: a4(&d[12..16]),
+        ip_src: a4(&p[12..16]),
+        ip_dst: a4(&p[16..20]),
+        eth_dst,
+    })
+}
+fn ip4(a: [u8; 4]) -> String {
+    format!("{}.{}.{}.{}", a[0], a[1], a[2], a[3])
+}
+fn tsec(us: i64) -> String {
+    format!("{}.{:06}s", us / US, us % US)
+}
+
+// ---------------------------------------------------------------------------------------
+// reference model
+// ---------------------------------------------------------------------------------------
+
+#[derive(Clone, Debug)]
+struct Lease {
+    /// expiry per the statement: arrival + lease option (None: the ACK carried no lease option.
+    /// LENIENT: the statement speaks of "the lease time granted by the ACK"; without the option
+    /// nothing is granted explicitly (the code documents a 120 s default), so no expiry is demanded)
+    e_stmt: Option<i64>,
+    /// arrival + min(lease option, max_lease_duration): only used to AIM time events at the
+    /// instants where the implementation's own clock should fire, never in a verdict.
+    /// LENIENT: honouring max_lease_duration is not part of the statement.
+    e_capped: Option<i64>,
+    /// granted seconds after capping (attempt clause threshold)
+    secs_capped: Option<u64>,
+    /// renew-before-rebind is only demanded when the ACK carried both or neither of T1/T2.
+    /// LENIENT: with only one of them the statement's "T1 < T2" premise is undefined (the code
+    /// documents T1 := min(lease/2, T2) for a lone T2, which can make T1 == T2).
+    order_demanded: bool,
+    t2only: bool,
+    renew_seen: bool,
+    rebind_seen: bool,
+    /// the clock never jumped past an instant the client asked to be polled at
+    faithful: bool,
+    /// no DHCP message from the server since the ACK
+    silent: bool,
+}
+
+#[derive(Clone, Debug)]
+struct Model {
+    latest_xid: Option<u32>,
+    latest_type: u8,
+    earlier_xid: Option<u32>,
+    last_req_xid: Option<u32>,
+    xids: Vec<u32>,
+    /// what the client currently reports through `dhcpv4::Socket::poll()`
+    reported: Option<([u8; 4], u8)>,
+    /// a clause-1 violation happened earlier in this history: the lease clock no longer
+    /// describes what the client holds, later lease/renew verdicts are suppressed
+    tainted: bool,
+    lease: Option<Lease>,
+    /// max(time the client became unconfigured, time of its last solicitation)
+    unconf_ref: i64,
+    nosol_pollats: u8,
+    arp_pending: Option<[u8; 4]>,
+    labels: u32,
+}
+
+const L_CONFIGURED: u32 = 1;
+const L_RENEW_SEEN: u32 = 2;
+const L_REBIND_SEEN: u32 = 4;
+const L_EXPIRED: u32 = 8;
+const L_NAK_DECONF: u32 = 16;
+const L_REQUESTING: u32 = 32;
+const L_LEASE_RENEWED: u32 = 64;
+const L_TAINTED: u32 = 128;
+const L_RUN_CAPPED: u32 = 256;
+const L_T2ONLY_NO_RENEW: u32 = 512;
+const L_RUN_FULL_LEASE: u32 = 1024;
+const LABEL_NAMES: [(&str, u32); 11] = [
+    ("configured", L_CONFIGURED),
+    ("renew_attempt_seen_in_lease", L_RENEW_SEEN),
+    ("rebind_attempt_seen_in_lease", L_REBIND_SEEN),
+    ("reached_by_lease_expiry", L_EXPIRED),
+    ("reached_by_nak_deconfigure", L_NAK_DECONF),
+    ("requesting", L_REQUESTING),
+    ("reached_by_lease_renewal_ack", L_LEASE_RENEWED),
+    ("after_clause1_violation", L_TAINTED),
+    ("run_silent_capped", L_RUN_CAPPED),
+    ("observation_lone_T2_rebind_without_renew", L_T2ONLY_NO_RENEW),
+    ("silent_run_checked_renew_and_rebind_before_expiry", L_RUN_FULL_LEASE),
+];
+
+static LABELS: Mutex<Option<HashMap<u128, u32>>> = Mutex::new(None);
+static VERBOSE: AtomicBool = AtomicBool::new(false);
+
+// ---------------------------------------------------------------------------------------
+// harness
+// ---------------------------------------------------------------------------------------
+
+pub struct DhcpH {
+    cfg: Cfg,
+    backoff: i64,
+    dev: SimDevice,
+    iface: Interface,
+    sockets: SocketSet<'static>,
+    handle: SocketHandle,
+    now: i64,
+    m: Model,
+    pending: Vec<Viol>,
+    msgs: std::sync::Arc<(Vec<MsgSpec>, Vec<MsgSpec>)>,
+    pub log: Vec<String>,
+}
+
+/// what was delivered in the poll being judged
+#[derive(Default)]
+struct PollCtx {
+    delivered: Vec<(MsgSpec, Vec<&'static str>)>, // spec + failed acceptance conditions
+    nak: bool,
+    any_dhcp: bool,
+}
+
+impl DhcpH {
+    fn say(&mut self, s: impl FnOnce() -> String) {
+        if VERBOSE.load(Ordering::Relaxed) {
+            let l = format!("t={} {}", tsec(self.now), s());
+            self.log.push(l);
+        }
+    }
+
+    fn xid_value(&self, x: X) -> u32 {
+        match x {
+            X::Latest => self.m.latest_xid.unwrap_or(1),
+            X::Earlier => self.m.earlier_xid.unwrap_or(2),
+            X::Foreign => {
+                let mut v = 0x0bad_f00du32;
+                while self.m.xids.contains(&v) {
+                    v = v.wrapping_add(0x1357_9bdf);
+                }
+                v
+            }
+        }
+    }
+
+    /// The statement's acceptance conditions, evaluated against what the client has put on the
+    /// wire so far.  Returns the list of failed conditions (empty = acceptable).
+    fn failed_conditions(&self, s: &MsgSpec) -> Vec<&'static str> {
+        let mut f = vec![];
+        if s.typ != MT::Ack {
+            f.push("not-an-ack");
+            return f;
+        }
+        let xid = self.xid_value(s.xid);
+        match self.m.last_req_xid {
+            None => f.push("ack-before-request"),
+            Some(r) if r != xid => {
+                // the current transaction (latest client message) has no REQUEST yet
+                if Some(xid) == self.m.latest_xid && self.m.latest_type != 3 {
+                    f.push("ack-before-request")
+                } else {
+                    f.push("xid-not-of-latest-request")
+                }
+            }
+            _ => {}
+        }
+        if !s.own_chaddr {
+            f.push("foreign-chaddr");
+        }
+        if !s.sid {
+            f.push("no-server-id");
+        }
+        match s.mask {
+            M::M24 => {}
+            M::NonContig => f.push("non-contiguous-mask"),
+            M::Absent => f.push("no-mask"),
+        }
+        match s.yi {
+            Y::Uni => {}
+            Y::Bcast => f.push("yiaddr-broadcast"),
+            Y::Zero => f.push("yiaddr-unspecified"),
+            Y::Mcast => f.push("yiaddr-multicast"),
+        }
+        f
+    }
+
+    fn build_frame(&self, s: &MsgSpec) -> Vec<u8> {
+        use smoltcp::phy::ChecksumCapabilities;
+        use smoltcp::wire::{
+            EthernetFrame, EthernetProtocol, EthernetRepr, IpProtocol, Ipv4Packet, Ipv4Repr, UdpPacket, UdpRepr,
+        };
+        let yi = match s.yi {
+            Y::Uni => YI_UNI,
+            Y::Bcast => BCAST,
+            Y::Zero => [0; 4],
+            Y::Mcast => YI_MCAST,
+        };
+        let carries_cfg = matches!(s.typ, MT::Offer | MT::Ack);
+        let (t1, t2) = if carries_cfg { t12_values(s.t12, s.lease) } else { (None, None) };
+        let t1b = t1.unwrap_or(0).to_be_bytes();
+        let t2b = t2.unwrap_or(0).to_be_bytes();
+        let mut extra: Vec<DhcpOption> = vec![];
+        if t1.is_some() {
+            extra.push(DhcpOption { kind: 58, data: &t1b });
+        }
+        if t2.is_some() {
+            extra.push(DhcpOption { kind: 59, data: &t2b });
+        }
+        // DNS option (6) goes through additional_options: keeps this crate free of `heapless`
+        if s.extras && carries_cfg {
+            extra.push(DhcpOption { kind: 6, data: &DNS1 });
+        }
+        let repr = DhcpRepr {
+            message_type: match s.typ {
+                MT::Offer => DhcpMessageType::Offer,
+                MT::Ack => DhcpMessageType::Ack,
+                MT::Nak => DhcpMessageType::Nak,
+                MT::Discover => DhcpMessageType::Discover,
+                MT::Inform => DhcpMessageType::Inform,
+                MT::Request => DhcpMessageType::Request,
+            },
+            transaction_id: self.xid_value(s.xid),
+            secs: 0,
+            client_hardware_address: EthernetAddress(if s.own_chaddr { CLIENT_MAC } else { FOREIGN_MAC }),
+            client_ip: Ipv4Address::UNSPECIFIED,
+            your_ip: Ipv4Address::from(yi),
+            server_ip: Ipv4Address::from(SERVER_IP),
+            router: if s.extras && carries_cfg { Some(Ipv4Address::from(SERVER_IP)) } else { None },
+            subnet_mask: match s.mask {
+                M::M24 => Some(Ipv4Address::from(MASK24)),
+                M::NonContig => Some(Ipv4Address::from(MASK_NC)),
+                M::Absent => None,
+            },
+            relay_agent_ip: Ipv4Address::UNSPECIFIED,
+            broadcast: false,
+            requested_ip: None,
+            client_identifier: None,
+            server_identifier: if s.sid { Some(Ipv4Address::from(SERVER_IP)) } else { None },
+            parameter_request_list: None,
+            dns_servers: None,
+            max_size: None,
+            lease_duration: if carries_cfg { s.lease } else { None },
+            renew_duration: None,
+            rebind_duration: None,
+            additional_options: &extra,
+        };
+        let dlen = repr.buffer_len();
+        let ip_dst = if s.unicast { Ipv4Address::from(YI_UNI) } else { Ipv4Address::BROADCAST };
+        let ip_src = Ipv4Address::from(SERVER_IP);
+        let ip = Ipv4Repr { src_addr: ip_src, dst_addr: ip_dst, next_header: IpProtocol::Udp, payload_len: 8 + dlen, hop_limit: 64 };
+        let eth = EthernetRepr {
+            src_addr: EthernetAddress(SERVER_MAC),
+            dst_addr: if s.unicast { EthernetAddress(CLIENT_MAC) } else { EthernetAddress::BROADCAST },
+            ethertype: EthernetProtocol::Ipv4,
+        };
+        let caps = ChecksumCapabilities::default();
+        let mut buf = vec![0u8; 14 + 20 + 8 + dlen];
+        let mut fr = EthernetFrame::new_unchecked(&mut buf[..]);
+        eth.emit(&mut fr);
+        let mut ipp = Ipv4Packet::new_unchecked(fr.payload_mut());
+        ip.emit(&mut ipp, &caps);
+        let mut udp = UdpPacket::new_unchecked(ipp.payload_mut());
+        UdpRepr { src_port: 67, dst_port: 68 }.emit(
+            &mut udp,
+            &IpAddress::Ipv4(ip_src),
+            &IpAddress::Ipv4(ip_dst),
+            dlen,
+            |p| repr.emit(&mut DhcpPacket::new_unchecked(p)).expect("emit dhcp stimulus"),
+            &caps,
+        );
+        buf
+    }
+
+    fn build_arp_reply(&self, client_ip: [u8; 4]) -> Vec<u8> {
+        use smoltcp::wire::{ArpOperation, ArpPacket, ArpRepr, EthernetFrame, EthernetProtocol, EthernetRepr};
+        let arp = ArpRepr::EthernetIpv4 {
+            operation: ArpOperation::Reply,
+            source_hardware_addr: EthernetAddress(SERVER_MAC),
+            source_protocol_addr: Ipv4Address::from(SERVER_IP),
+            target_hardware_addr: EthernetAddress(CLIENT_MAC),
+            target_protocol_addr: Ipv4Address::from(client_ip),
+        };
+        let eth = EthernetRepr {
+            src_addr: EthernetAddress(SERVER_MAC),
+            dst_addr: EthernetAddress(CLIENT_MAC),
+            ethertype: EthernetProtocol::Arp,
+        };
+        let mut buf = vec![0u8; 14 + arp.buffer_len()];
+        let mut fr = EthernetFrame::new_unchecked(&mut buf[..]);
+        eth.emit(&mut fr);
+        arp.emit(&mut ArpPacket::new_unchecked(fr.payload_mut()));
+        buf
+    }
+
+    /// Feed the lease clock / context with a message about to be delivered.
+    fn model_deliver(&mut self, s: &MsgSpec, ctx: &mut PollCtx) {
+        let failed = self.failed_conditions(s);
+        ctx.any_dhcp = true;
+        if s.typ == MT::Nak {
+            ctx.nak = true;
+        }
+        if let Some(l) = self.m.lease.as_mut() {
+            l.silent = false;
+        }
+        if failed.is_empty() {
+            let cap = self.cfg.max_lease.map(|c| c as u64);
+            let secs_capped = s.lease.map(|l| cap.map_or(l as u64, |c| c.min(l as u64)));
+            let renewed = self.m.reported.is_some();
+            let (t1, t2) = t12_values(s.t12, s.lease);
+            self.m.lease = Some(Lease {
+                e_stmt: s.lease.map(|l| self.now + l as i64 * US),
+                e_capped: secs_capped.map(|l| self.now + l as i64 * US),
+                secs_capped,
+                order_demanded: t1.is_some() == t2.is_some(),
+                t2only: t1.is_none() && t2.is_some(),
+                renew_seen: false,
+                rebind_seen: false,
+                faithful: true,
+                silent: true,
+                });
+            if renewed {
+                self.m.labels |= L_LEASE_RENEWED;
+            }
+        }
+        let xid = self.xid_value(s.xid);
+        self.say(|| format!("server -> {:?} xid={:08x} acceptable-per-statement={}", s, xid, if failed.is_empty() { "yes".to_string() } else { format!("no{:?}", failed) }));
+        ctx.delivered.push((*s, failed));
+    }
+
+    fn cause(&self) -> &'static str {
+        if self.m.arp_pending.is_some() {
+            "arp-for-server-unanswered"
+        } else {
+            "plain"
+        }
+    }
+
+    fn observe_tx(&mut self, t: i64, f: &[u8], out: &mut Vec<Viol>, solicited: &mut bool) {
+        match parse_tx(f) {
+            Tx::ArpRequest { spa, tpa } => {
+                self.say(|| format!("client -> ARP who-has {} tell {}", ip4(tpa), ip4(spa)));
+                if tpa == SERVER_IP {
+                    self.m.arp_pending = Some(spa);
+                    // LENIENT: an ARP request for the server while bound is the visible part of
+                    // a unicast renewal attempt whose REQUEST cannot leave without the answer
+                    if self.m.reported.is_some() {
+                        if let Some(l) = self.m.lease.as_mut() {
+                            l.renew_seen = true;
+                        }
+                    }
+                }
+            }
+            Tx::Dhcp(c) => {
+                if self.m.latest_xid != Some(c.xid) {
+                    if self.m.latest_xid.is_some() {
+                        self.m.earlier_xid = self.m.latest_xid;
+                    }
+                    self.m.xids.push(c.xid);
+                }
+                self.m.latest_xid = Some(c.xid);
+                self.m.latest_type = c.typ;
+                if c.typ == 3 {
+                    self.m.last_req_xid = Some(c.xid);
+                }
+                let renewal = c.typ == 3 && c.ciaddr != [0; 4];
+                let bc = c.ip_dst == BCAST;
+                self.say(|| {
+                    format!(
+                        "client -> {} xid={:08x} ciaddr={} ip {}->{} eth-dst={}{}",
+                        match c.typ {
+                            1 => "DISCOVER",
+                            3 => "REQUEST",
+                            _ => "type?",
+                        },
+                        c.xid,
+                        ip4(c.ciaddr),
+                        ip4(c.ip_src),
+                        ip4(c.ip_dst),
+                        hex(&c.eth_dst),
+                        if renewal { if bc { " (rebind)" } else { " (renew)" } } else { "" }
+                    )
+                });
+                if c.typ == 1 || (c.typ == 3 && !renewal) {
+                    *solicited = true;
+                    self.m.unconf_ref = t;
+                    self.m.nosol_pollats = 0;
+                }
+                if renewal {
+                    let tainted = self.m.tainted;
+                    let cause = self.cause();
+                    if let Some(l) = self.m.lease.as_mut() {
+                        if let Some(e) = l.e_stmt {
+                            if t >= e && !tainted {
+                                out.push(Viol::new(
+                                    format!("C18/renew/request-after-expiry/{}", if bc { "rebind" } else { "renew" }),
+                                    format!("DHCPREQUEST with ciaddr {} sent at {} but the lease granted by the most recent acceptable ACK expired at {} ({})", ip4(c.ciaddr), tsec(t), tsec(e), cause),
+                                ));
+                            }
+                        }
+                        if bc {
+                            if !l.renew_seen {
+                                if l.t2only {
+                                    self.m.labels |= L_T2ONLY_NO_RENEW;
+                                }
+                                if l.order_demanded && l.faithful && !tainted {
+                                    out.push(Viol::new(
+                                        "C18/renew/rebind-before-renew",
+                                        format!("broadcast rebind REQUEST at {} although no renewal attempt (unicast REQUEST or ARP for the server) was made in this lease and the clock never skipped a poll_at instant", tsec(t)),
+                                    ));
+                                }
+                            }
+                            l.rebind_seen = true;
+                        } else {
+                            l.renew_seen = true;
+                        }
+                    }
+                }
+            }
+            Tx::Other => {
+                self.say(|| format!("client -> other frame {}", hex(&f[..f.len().min(24)])));
+            }
+        }
+    }
+
+    /// One `Interface::poll` at `self.now` + drain of socket events + all per-poll oracles.
+    fn poll_step(&mut self, ctx: &PollCtx, out: &mut Vec<Viol>) -> bool {
+        let ts = Instant::from_micros(self.now);
+        self.iface.poll(ts, &mut self.dev, &mut self.sockets);
+        let frames = self.dev.take_tx();
+        let mut solicited = false;
+        for (t, f) in frames {
+            self.observe_tx(t, &f, out, &mut solicited);
+        }
+        // drain events
+        loop {
+            let ev = {
+                let s = self.sockets.get_mut::<dhcpv4::Socket>(self.handle);
+                match s.poll() {
+                    None => None,
+                    Some(dhcpv4::Event::Deconfigured) => Some(None),
+                    Some(dhcpv4::Event::Configured(c)) => Some(Some((c.address, c.router))),
+                }
+            };
+            match ev {
+                None => break,
+                Some(None) => {
+                    self.say(|| "event Deconfigured".to_string());
+                    if self.m.reported.is_some() {
+                        // lease-end bookkeeping
+                        if ctx.nak {
+                            self.m.labels |= L_NAK_DECONF;
+                        } else {
+                            self.m.labels |= L_EXPIRED;
+                        }
+                        if let Some(l) = self.m.lease.clone() {
+                            // "attempts renewal before rebinding before expiry": demanded for a
+                            // silent server, a clock that followed poll_at, a granted (and capped)
+                            // lease of at least 10 minutes (LENIENT: shorter leases interact with
+                            // the documented minimum retry interval).
+                            if l.silent && l.faithful && l.order_demanded && !self.m.tainted && l.secs_capped.is_some_and(|s| s >= 600) {
+                                self.m.labels |= L_RUN_FULL_LEASE;
+                                if !l.renew_seen {
+                                    out.push(Viol::new("C18/renew/no-renew-attempt-before-expiry", format!("lease of {:?} s ended at {} without any renewal attempt although the server was silent and the client was polled at every poll_at", l.secs_capped, tsec(self.now))));
+                                }
+                                if !l.rebind_seen {
+                                    out.push(Viol::new("C18/renew/no-rebind-attempt-before-expiry", format!("lease of {:?} s ended at {} without any rebind attempt although the server was silent and the client was polled at every poll_at", l.secs_capped, tsec(self.now))));
+                                }
+                            }
+                        }
+                        self.m.unconf_ref = self.now;
+                        self.m.nosol_pollats = 0;
+                    }
+                    self.m.reported = None;
+                    self.iface.update_ip_addrs(|a| a.clear());
+                    self.iface.routes_mut().remove_default_ipv4_route();
+                }
+                Some(Some((addr, router))) => {
+                    let got = (addr.address().octets(), addr.prefix_len());
+                    self.say(|| format!("event Configured {}/{} router={:?}", ip4(got.0), got.1, router));
+                    // clause 1
+                    let acc: Vec<&MsgSpec> = ctx.delivered.iter().filter(|d| d.1.is_empty()).map(|d| &d.0).collect();
+                    let mut legit = true;
+                    if acc.is_empty() {
+                        legit = false;
+                        let acks: Vec<&(MsgSpec, Vec<&'static str>)> = ctx.delivered.iter().filter(|d| d.0.typ == MT::Ack).collect();
+                        let cause = match acks.last() {
+                            None => "no-ack-delivered".to_string(),
+                            Some(d) => d.1.join("+"),
+                        };
+                        out.push(Viol::new(
+                            format!("C18/configured/{}", cause),
+                            format!("Configured({}/{}) reported at {} but the poll delivered {:?}: no DHCPACK meeting all acceptance conditions of the statement", ip4(got.0), got.1, tsec(self.now), ctx.delivered.iter().map(|d| format!("{:?} failing {:?}", d.0, d.1)).collect::<Vec<_>>()),
+                        ));
+                    } else if got != (YI_UNI, 24) {
+                        // every acceptable ACK of the alphabet carries yiaddr YI_UNI, mask /24
+                        legit = false;
+                        out.push(Viol::new("C18/configured/address-differs-from-ack", format!("Configured({}/{}) but the ACK carried {}/24", ip4(got.0), got.1, ip4(YI_UNI))));
+                    }
+                    if !legit {
+                        self.m.tainted = true;
+                    }
+                    self.m.reported = Some(got);
+                    // apply the configuration like examples/dhcp_client.rs (documented duty of
+                    // the user).  Guard: never hand a non-unicast address to update_ip_addrs
+                    // (it panics by contract); such an address was reported above already.
+                    if Ipv4Address::from(got.0).is_multicast() || got.0 == BCAST || got.0 == [0; 4] {
+                        continue;
+                    }
+                    self.iface.update_ip_addrs(|a| {
+                        a.clear();
+                        a.push(IpCidr::Ipv4(Ipv4Cidr::new(addr.address(), addr.prefix_len()))).unwrap();
+                    });
+                    match router {
+                        Some(r) => {
+                            let _ = self.iface.routes_mut().add_default_ipv4_route(r);
+                        }
+                        None => {
+                            self.iface.routes_mut().remove_default_ipv4_route();
+                        }
+                    }
+                }
+            }
+        }
+        // clause 2a: not reporting past expiry
+        if let (Some(rep), Some(l)) = (self.m.reported, self.m.lease.as_ref()) {
+            if let Some(e) = l.e_stmt {
+                if self.now >= e && !self.m.tainted {
+                    out.push(Viol::new(
+                        format!("C18/lease/reported-past-expiry/{}", self.cause()),
+                        format!("poll at {} (>= expiry {} of the lease granted by the most recent acceptable ACK) did not produce Deconfigured; {}/{} still reported", tsec(self.now), tsec(e), ip4(rep.0), rep.1),
+                    ));
+                }
+            }
+        }
+        if self.m.reported.is_none() {
+            self.m.lease = None;
+        }
+        self.check_poll_at(out);
+        solicited
+    }
+
+    fn poll_at(&mut self) -> Option<i64> {
+        self.iface.poll_at(Instant::from_micros(self.now), &self.sockets).map(|i| i.total_micros())
+    }
+
+    fn check_poll_at(&mut self, out: &mut Vec<Viol>) {
+        let pa = self.poll_at();
+        match self.m.reported {
+            Some(_) => {
+                if self.m.tainted {
+                    return;
+                }
+                if let Some(e) = self.m.lease.as_ref().and_then(|l| l.e_stmt) {
+                    if self.now < e {
+                        match pa {
+                            None => out.push(Viol::new("C18/lease/poll-at-none-while-configured", format!("Interface::poll_at is None at {} while a lease expiring at {} is held", tsec(self.now), tsec(e)))),
+                            Some(p) if p > e => out.push(Viol::new(
+                                format!("C18/lease/poll-at-beyond-expiry/{}", self.cause()),
+                                format!("Interface::poll_at = {} at {} exceeds the lease expiry {}", tsec(p), tsec(self.now), tsec(e)),
+                            )),
+                            _ => {}
+                        }
+                    }
+                }
+            }
+            None => match pa {
+                None => out.push(Viol::new("C18/solicit/poll-at-none", format!("unconfigured at {} and Interface::poll_at is None: the client stopped soliciting", tsec(self.now)))),
+                Some(p) if p > self.now && p > self.m.unconf_ref + self.backoff => out.push(Viol::new(
+                    "C18/solicit/poll-at-beyond-backoff",
+                    format!("unconfigured; last solicitation/deconfiguration at {}, poll_at = {} is later than the configured maximum back-off of {} us allows", tsec(self.m.unconf_ref), tsec(p), self.backoff),
+                )),
+                _ => {}
+            },
+        }
+    }
+
+    /// advance the clock; a jump beyond the client's poll_at makes the current lease "unfaithful"
+    fn advance_to(&mut self, t: i64) {
+        if t <= self.now {
+            return;
+        }
+        let pa = self.poll_at();
+        if let Some(l) = self.m.lease.as_mut() {
+            match pa {
+                Some(p) if t <= p.max(self.now) => {}
+                _ => l.faithful = false,
+            }
+        }
+        self.now = t;
+    }
+
+    fn deliver_arp_reply(&mut self) {
+        if let Some(spa) = self.m.arp_pending.take() {
+            let f = self.build_arp_reply(spa);
+            self.say(|| format!("server -> ARP reply {} is-at {}", ip4(SERVER_IP), hex(&SERVER_MAC)));
+            self.dev.rx.push_back(f);
+        }
+    }
+
+    fn set_dynamic_labels(&mut self) {
+        let mut l = self.m.labels & !(L_CONFIGURED | L_RENEW_SEEN | L_REBIND_SEEN | L_REQUESTING | L_TAINTED);
+        if self.m.reported.is_some() {
+            l |= L_CONFIGURED;
+            if let Some(le) = &self.m.lease {
+                if le.renew_seen {
+                    l |= L_RENEW_SEEN;
+                }
+                if le.rebind_seen {
+                    l |= L_REBIND_SEEN;
+                }
+            }
+        } else if self.m.latest_type == 3 {
+            l |= L_REQUESTING;
+        }
+        if self.m.tainted {
+            l |= L_TAINTED;
+        }
+        self.m.labels = l;
+    }
+}
+
